@@ -194,8 +194,8 @@ def run(pid, tier, seed, replay=None, nworkers=None, keep=False):
                                "violation": v, "tree": env.tree_fingerprint()}, f, indent=1)
             if len(lines) < 40:
                 lines.append(f"VIOLATION property={pid} replay={os.path.relpath(path, ROOT)}  [{v['monitor']}] {json.dumps(v['detail'])[:400]}")
-    elif reasons:
-        rc = 2
+    if reasons:
+        rc = rc or 2
         for r in reasons:
             lines.append(f"INCONCLUSIVE property={pid} {r}")
         for c in crashed[:2]:
